@@ -185,10 +185,11 @@ def run(ctx):
                 ("arch", "sizes3", 4, "zlib", True), ("arch", "sizes3", 4, "lz4", True), ("inst", "sizes3", 4, "none", True)]
         nrand, rlen = 150, 100
     else:
-        plan = [("dyn", "sizes", 6, "none", False), ("inst", "sizes", 6, "none", False), ("arch", "sizes", 6, "none", False),
+        plan = [("dyn", "sizes", 5, "none", False), ("dyn", "sizes3", 6, "none", False), ("inst", "sizes", 6, "none", False),
+                ("arch", "sizes", 5, "none", False), ("arch", "sizes3", 6, "none", False), ("arch", "sizes3", 6, "zlib", True),
+                ("arch", "sizes3", 5, "lz4", True), ("inst", "sizes3", 6, "none", True),
                 ("inst", "classes", 5, "none", False), ("inst", "classes", 4, "none", True), ("dyn", "classes", 4, "none", False),
-                ("dyn", "classes3", 5, "none", False), ("arch", "classes3", 5, "none", True), ("arch", "classes3", 5, "zlib", True),
-                ("arch", "sizes3", 6, "zlib", True), ("arch", "sizes3", 6, "lz4", True), ("inst", "sizes3", 6, "none", True)]
+                ("dyn", "classes3", 5, "none", False), ("arch", "classes3", 5, "none", True), ("arch", "classes3", 5, "zlib", True)]
         nrand, rlen = 1200, 150
     model_refutations(ctx)
     totals = {"exact_reads": 0, "ok_writes": 0, "events": 0}
@@ -214,8 +215,14 @@ def run(ctx):
     # long seeded random histories: heavy-tailed sizes, all payload classes, all components
     trace = ctx.path("trace_random.ndjson")
     dump = ctx.path("prog_random.ndjson")
-    d = lib.run_driver("drv_storage", ["--random", nrand, "--len", rlen, "--out", trace, "--dump-programs", dump], env={"VERIF_SEED": ctx.seed})
+    g = lib.run_driver("drv_storage", ["--random", nrand, "--len", rlen, "--out", os.devnull, "--dump-programs", dump, "--dump-only"],
+                       env={"VERIF_SEED": ctx.seed})
+    if g.get("generated") != nrand:
+        raise lib.ToolError(f"random generator produced {g.get('generated')} of {nrand} programs")
+    d = lib.run_sharded(ctx, "drv_storage", dump, trace, shards=12)
     ctx.stage("run", source="random", programs=d.get("programs"), events=d.get("events"), hangs=d.get("hangs"), wall_s=d["wall_s"])
+    if d.get("programs") != nrand:
+        raise lib.ToolError(f"driver executed {d.get('programs')} of {nrand} random programs")
     count_ops(ctx, d)
     _, dn = lib.count_distinct(dump)
     judge_trace(ctx, trace, f"random seed={ctx.seed}", kd, totals)
